@@ -372,7 +372,7 @@ theorem before_dts (F : Nat) (hF : F % 4 = 0) (g : OrSwot) (S : Nat → Prop) (h
     rcases hm1 with hm1 | hm1
     · left
       refine ⟨m, hm1, ?_⟩
-      have := not_lt_forgive F t m hF ht (hS m hm1)
+      have := not_lt_forgive F t m hF ht (hS m hm1) hm2
       by_cases hc : dts m < dts t + F
       · exact absurd hb (this hc)
       · omega
@@ -381,7 +381,7 @@ theorem before_dts (F : Nat) (hF : F % 4 = 0) (g : OrSwot) (S : Nat → Prop) (h
       have hp : pack 0 0 (node t) = node t := by unfold pack durSecs durFrac; omega
       rw [hp] at hm1
       have hmlt : m < 18446744073709551616 := by omega
-      have := not_lt_forgive F t m hF ht hmlt
+      have := not_lt_forgive F t m hF ht hmlt hm2
       have hd0 : dts m = 0 := by rw [hm1]; exact dts_small _ hn
       by_cases hc : dts m < dts t + F
       · exact absurd hb (this hc)
